@@ -580,7 +580,7 @@ def set_oracle(spec, p, data, mask):
     return pts, st
 
 
-def oracles(spec, impl=None, infos=None, phot=None):
+def oracles(spec, impl=None, infos=None, phot=None, counts=None):
     """-> list of (signature, what, detail) property violations of the implementation on spec"""
     viol = []
     data, err, mask, aper, pix, wcs, sc, lb = build(spec)
@@ -600,6 +600,7 @@ def oracles(spec, impl=None, infos=None, phot=None):
     phot = phot or photometry_reference(spec, infos)
     lat_data = spec.get('lattice', True)
     ws, lat_w = weight_scale(spec, infos)
+    counts = counts if counts is not None else {}
     for i, p in enumerate(infos):
         where = {'position': i, 'xy': spec['aper']['positions'][i], 'bbox': list(p.bbox)}
         if not p.clip_hyp:
@@ -616,6 +617,7 @@ def oracles(spec, impl=None, infos=None, phot=None):
             positive = bool(((p.aws > 0) & ~pm[y0:y1, x0:x1]).any())
         exact = lat_data and (lat_w or spec['sum_method'] == 'center')
         if positive:
+            counts['sum_vs_aperture_photometry'] = counts.get('sum_vs_aperture_photometry', 0) + 1
             mag = float(np.sum(np.abs(np.where(pm[y0:y1, x0:x1], 0.0, np.nan_to_num(data[y0:y1, x0:x1] - p.bkg)) * p.aws)))
             for name, got, want, tol in (
                     ('sum', impl['sum'][i], ps, 0.0 if exact else 1e-12 * mag),
@@ -637,6 +639,7 @@ def oracles(spec, impl=None, infos=None, phot=None):
         # ---- P2: statistics of the pixel set
         pts, st = set_oracle(spec, p, data, mask)
         if st is not None:
+            counts['std_mad_biweight_mode_on_value_list'] = counts.get('std_mad_biweight_mode_on_value_list', 0) + 1
             for name in SET_STATS:
                 got, want = impl[name][i], st[name]
                 if name in ('min', 'max', 'median') and lat_data:
@@ -677,6 +680,7 @@ def oracles(spec, impl=None, infos=None, phot=None):
                                     'fwhm': 2.0 * math.sqrt(math.log(2.0) * (l1 + l2)),
                                     'eccentricity': math.sqrt(max(1.0 - l2 / l1, 0.0)),
                                     'elongation': math.sqrt(l1 / l2)}
+                            counts['shape_values_vs_set_moments'] = counts.get('shape_values_vs_set_moments', 0) + 1
                             if disc > 1e-6 * tr:
                                 want['orientation'] = math.degrees(0.5 * math.atan2(2.0 * cxy, cxx - cyy))
                             for name, w in want.items():
@@ -694,6 +698,7 @@ def oracles(spec, impl=None, infos=None, phot=None):
                                                  dict(where, got=impl[name][i], want=w)))
         else:
             # ---- P3: no overlap / nothing unmasked (in the centre-method set) => NaN
+            counts['empty_set_all_nan'] = counts.get('empty_set_all_nan', 0) + 1
             for name in NAN_PROPS:
                 if name in SUM_NAN_PROPS:
                     continue
@@ -798,6 +803,7 @@ def run(ctx):
     n = 320 if ctx.tier == 'quick' else 2400
     specs = [gen_spec(ctx.rng) for _ in range(n)]
     coq_cases, keep = [], []
+    counts = {}
     for k, spec in enumerate(specs):
         try:
             infos = position_info(spec)
@@ -826,7 +832,7 @@ def run(ctx):
             keep.append((spec, None, infos))
             continue
         phot = photometry_reference(spec, infos)
-        for sig, what, detail in oracles(spec, impl, infos, phot):
+        for sig, what, detail in oracles(spec, impl, infos, phot, counts):
             ctx.violation(sig, what, dict(describe(spec), detail=detail, cmd='bin/check C16 --replay <this file>'))
         if k % 4 == 0:
             for sig, what, detail in single_oracle(spec, impl, infos):
@@ -870,9 +876,11 @@ def run(ctx):
         except Exception:           # noqa
             continue
         ctx.count_case(describe(spec), True)
-        for sig, what, detail in oracles(spec, None, infos):
+        for sig, what, detail in oracles(spec, None, infos, None, counts):
             ctx.violation(sig, what, dict(describe(spec), detail=detail, cmd='bin/check C16 --replay <this file>'))
         ctx.support('arbitrary_double_images_python_oracles', 1)
+    for name, cnt in sorted(counts.items()):
+        ctx.support(name + ' (positions)', cnt)
 
 
 def replay(obj):
